@@ -136,4 +136,25 @@ theorem aget_filter_some {ν : Type} {l : List (Nat × ν)} {p : Nat × ν → B
   have hm := aget_some_mem h
   exact aget_of_mem_nodup hnd (List.mem_filter.mp hm).1
 
+theorem aget_adel_self {ν : Type} (l : List (Nat × ν)) (k : Nat) : aget (adel l k) k = none := by
+  rw [aget_eq_none_iff]
+  unfold adel keys
+  intro h
+  obtain ⟨p, hp, hk⟩ := List.mem_map.mp h
+  have := (List.mem_filter.mp hp).2
+  simp [hk] at this
+
+theorem aget_adel_ne {ν : Type} (l : List (Nat × ν)) {k k' : Nat} (h : k' ≠ k) : aget (adel l k) k' = aget l k' := by
+  induction l with
+  | nil => rfl
+  | cons p l ih =>
+    have hcons : adel (p :: l) k = if p.1 ≠ k then p :: adel l k else adel l k := by
+      unfold adel
+      by_cases hp : p.1 = k <;> simp [List.filter_cons, hp]
+    rw [hcons]
+    by_cases hp : p.1 = k
+    · have hk : ¬ p.1 = k' := fun e => h (e.symm.trans hp)
+      rw [if_neg (by simpa using hp), ih, aget_cons, if_neg hk]
+    · rw [if_pos hp, aget_cons, aget_cons, ih]
+
 end TxV.Config
